@@ -98,6 +98,19 @@ fn seed_oi<const D: u8>(k: &mut Mkt<D>, px: &Value, l: u64, s: u64) {
     }
 }
 
+/// history before the round trip: cumulative funding / claimable-funding per size and borrowing factors
+/// (state injection; the values differ between collateral tokens and between sides)
+fn accrue<const D: u8>(k: &mut Mkt<D>, rng: &mut Rng, fmax: u64, bmax: u64) {
+    for pools in [&mut k.funding_amount_per_size, &mut k.claimable_funding_amount_per_size] {
+        for p in [&mut pools.0, &mut pools.1] {
+            p.long_amount = rng.below(fmax);
+            p.short_amount = rng.below(fmax);
+        }
+    }
+    k.borrowing_factor.long_amount = rng.below(bmax);
+    k.borrowing_factor.short_amount = rng.below(bmax);
+}
+
 fn small(args: &Args) -> i32 {
     let mut sink = Sink::create(&args.str("out", "c10-small.ndjson"));
     let caps: [(u64, u64); 6] = [(0, 0), (1, 3), (3, 3), (3, 1), (5, 0), (10, 10)];
@@ -112,6 +125,11 @@ fn small(args: &Args) -> i32 {
                     let mut k0 = market_from::<1>(&zero_market(&c, 500, 5000, 60, false));
                     seed_oi(&mut k0, px, oi_l, oi_s);
                     k0.position_impact.long_amount = ip;
+                    if oi_l != oi_s {
+                        // funding / borrowing accrued before the round trip (indices differ by token and side)
+                        let mut r = Rng::new(oi_l * 31 + oi_s);
+                        accrue(&mut k0, &mut r, 7, 4);
+                    }
                     for long in [true, false] {
                         for clong in [true, false] {
                             for (dcoll, dsize) in [(8u64, 50u64), (20, 100), (60, 200), (3, 100)] {
@@ -168,6 +186,9 @@ fn random_case<const D: u8>(rng: &mut Rng, sink: &mut Sink) {
     };
     seed_oi(&mut k, &px, oi_l, oi_s);
     k.position_impact.long_amount = pick(rng, &[0, 0, 1, 5, 30, 200]);
+    if rng.chance(2, 3) {
+        accrue(&mut k, rng, u(&c, "fadj") * unit / 2 + 2, unit / 5 + 1);
+    }
     let long = rng.chance(1, 2);
     let clong = rng.chance(1, 2);
     let dsize = rng.range(unit as i64, 20 * unit as i64) as u64;
